@@ -137,16 +137,27 @@ def run(P, chk, tier):
             ds = an.before_node(c["n"]) or []
             dk, lk = pp(sk(c["a"][di])), pp(sk(c["a"][li]))
             bad = []
+            same = bool(ds)
             for d in ds:
                 ok = False
+                # the length may travel in a temporary that is known to equal the field (a helper's parameter)
+                lks = {lk}
+                for g in d:
+                    if g.kind == "cmp" and g.op == "==" and isinstance(g.key[2], str):
+                        if g.key[0] == lk:
+                            lks.add(g.key[2])
+                        elif g.key[2] == lk:
+                            lks.add(g.key[0])
+                hit = None
                 for call, succ in call_facts(d, "uncompress"):
                     a = call["a"]
-                    if succ and pp(sk(a[2])) == dk and pp(sk(a[3])) == lk:
+                    if succ and pp(sk(a[2])) == dk and pp(sk(a[3])) in lks:
                         ok = True
+                        hit = pp(sk(a[3]))
                 if not ok:
                     bad.append(d)
-            same = sk(c["a"][di]).get("k") == "Mem" and sk(c["a"][li]).get("k") == "Mem" and \
-                pp(sk(sk(c["a"][di])["a"][0])) == pp(sk(sk(c["a"][li])["a"][0]))
+                elif not ("." in dk and "." in hit and dk.rsplit(".", 1)[0] == hit.rsplit(".", 1)[0]):
+                    same = False
             chk.site(r2, hfp, ir.loc(c), pp(c)[:70], not bad and same,
                      "forwarded bytes passed the checksum" if not bad and same else
                      "forwarded (%s, %s) is not a buffer/length pair that a successful uncompress has just validated" % (dk, lk),
